@@ -178,9 +178,13 @@ func extractTarDirectory(dirPath, dirName string, r io.Reader, buf []byte, prese
 		// Create content
 		switch header.Typeflag {
 		case tar.TypeReg:
-			err = writeFile(filePath, tr, header.FileInfo().Mode(), buf)
+			if err = removeSymlink(filePath); err == nil {
+				err = writeFile(filePath, tr, header.FileInfo().Mode(), buf)
+			}
 		case tar.TypeDir:
-			err = os.MkdirAll(filePath, header.FileInfo().Mode())
+			if err = removeSymlink(filePath); err == nil {
+				err = os.MkdirAll(filePath, header.FileInfo().Mode())
+			}
 		case tar.TypeLink:
 			// NOTE: ORAS does not generate hard links when creating tarballs.
 			// If a hard link is found in the tarball, it will be extracted.
@@ -278,6 +282,23 @@ func ensureLinkPath(baseAbs, baseRel, link, target string) (string, error) {
 		return "", err
 	}
 	return target, nil
+}
+
+// removeSymlink removes path if it is a symbolic link, so that a regular file
+// or a directory extracted to path replaces the link instead of being written
+// (or having its mode changed) through it, possibly outside the base directory.
+func removeSymlink(path string) error {
+	info, err := os.Lstat(path)
+	if err != nil {
+		if os.IsNotExist(err) {
+			return nil
+		}
+		return err
+	}
+	if info.Mode()&os.ModeSymlink != 0 {
+		return os.Remove(path)
+	}
+	return nil
 }
 
 // writeFile writes content to the file specified by the `path` parameter.
